@@ -5,10 +5,20 @@ V = os.path.dirname(os.path.dirname(os.path.abspath(__file__)))
 TB = ("Lean 4.33.0 kernel + axioms propext/Classical.choice/Quot.sound only (audited per theorem on every run); "
       "the go/ast translator; the correspondence harness and its generators; hand-written Lean model validated by "
       "differential runs against the real packages, not verified; see DESIGN.md §7")
-CLAIMED = {
- "C16": dict(text="Unbounded Lean 4 theorem c16_equiv: for every right string, admin flag and path the model of initMatchers/NewPathMatcher/Match/ValidatePermission equals the documented pattern language; the model is tied to the source by a regenerated fact (pathScanner's trim function, wildcard constants) and by a differential run of auth.User against the compiled Lean model and specification.",
-             ref="§5 C16", note=TB + ". ASCII letters/blanks only in the correspondence (Go's Unicode ToLower/IsSpace are parameters of the theorem)."),
-}
+CLAIMED = {}
+md = os.path.join(V, "manifest.d")
+for fn in sorted(os.listdir(md)):
+    if fn.endswith(".json"):
+        c = json.load(open(os.path.join(md, fn)))
+        CLAIMED[fn[:-5]] = dict(text=c["text"], ref=c.get("ref", ""), note=TB + ". " + c.get("note", ""))
+# merged index of the known findings
+kf = []
+kd = os.path.join(V, "known_findings.d")
+for fn in sorted(os.listdir(kd)):
+    if fn.endswith(".json"):
+        kf += json.load(open(os.path.join(kd, fn))).get("findings", [])
+json.dump({"comment": "Merged index of known_findings.d/*.json (the committed sources; never written at run time by a check). status=open: genuine defect recorded, not repaired — the check prints KNOWN-FINDING for exactly this class and exits 0. status=fixed: repaired by the named fix: commit in /repo; suppresses nothing.",
+           "findings": kf}, open(os.path.join(V, "known_findings.json"), "w"), indent=1)
 TODO = {}
 ids = ["C%02d" % i for i in range(1, 21)]
 checks = []
